@@ -64,6 +64,7 @@ type Contract struct {
 	HasModifies        bool
 	LoopInv            map[int][]*Clause
 	LoopDec            map[int]*Clause
+	LoopStep           map[int][]*Clause // per-iteration assertions checked at every back edge; header(x) = value at loop head
 	Pure               bool
 	Inline             bool
 	Trusted            bool
@@ -76,15 +77,22 @@ type Contract struct {
 	AllocBound         *Clause
 	NilRecvOK          bool
 	SpecOnly           bool
-	Unverified         []string // interface contract: implementing types whose refinement is assumed, not proved
-	IndexFn     bool            // spec-level slice indexing through an uninterpreted index function (E-matching aid)
-	Hide        map[string]bool // spec functions kept opaque (uninterpreted) in this function's VC
-	Using       []string // axioms / proved lemmas assumed in this function's VC
-	Claims      map[string]bool // if set: only these obligation kinds are generated (the others are listed as not claimed)
-	AssumeCalleeFrames bool     // havoc callees are assumed not to write caller-visible memory (listed in the evidence)
-	CheckAlias         bool     // emit alias obligations on append into non-fresh spare capacity (C09/C10)
-	IsIface            bool     // interface-level contract: <Iface>.<Method>
-	InlineAll          bool     // harness: same-package callees are inlined instead of used by contract
+	Unverified         []string        // interface contract: implementing types whose refinement is assumed, not proved
+	AtCall             []*AtCall       // assertions that must hold immediately before matching call sites
+	IndexFn            bool            // spec-level slice indexing through an uninterpreted index function (E-matching aid)
+	Hide               map[string]bool // spec functions kept opaque (uninterpreted) in this function's VC
+	Using              []string        // axioms / proved lemmas assumed in this function's VC
+	Claims             map[string]bool // if set: only these obligation kinds are generated (the others are listed as not claimed)
+	AssumeCalleeFrames bool            // havoc callees are assumed not to write caller-visible memory (listed in the evidence)
+	CheckAlias         bool            // emit alias obligations on append into non-fresh spare capacity (C09/C10)
+	IsIface            bool            // interface-level contract: <Iface>.<Method>
+	InlineAll          bool            // harness: same-package callees are inlined instead of used by contract
+}
+
+// AtCall: `at-call <text> requires <expr>`: at every call whose source text contains <text>.
+type AtCall struct {
+	Match  string
+	Clause *Clause
 }
 
 type SpecFn struct {
@@ -113,8 +121,8 @@ type SpecSet struct {
 	Lemmas    []*Lemma
 	Axioms    []*Lemma
 	Ghosts    map[string]*SpecFn // uninterpreted specification functions (defined by axioms)
-	Aliases   map[string]string // spec name -> function key (pure closures referred to by name)
-	Invs      []*Lemma // package-level invariants over globals (established by init, never written elsewhere)
+	Aliases   map[string]string  // spec name -> function key (pure closures referred to by name)
+	Invs      []*Lemma           // package-level invariants over globals (established by init, never written elsewhere)
 	Order     []string
 }
 
@@ -173,7 +181,7 @@ func (ss *SpecSet) parseSpec(text, path, pkgPath string) error {
 			if trusted && strings.Contains(name, "/") {
 				key = name
 			}
-			cur = &Contract{Key: key, File: path, Line: ln + 1, LoopInv: map[int][]*Clause{}, LoopDec: map[int]*Clause{}, Trusted: trusted,
+			cur = &Contract{Key: key, File: path, Line: ln + 1, LoopInv: map[int][]*Clause{}, LoopDec: map[int]*Clause{}, LoopStep: map[int][]*Clause{}, Trusted: trusted,
 				Props: append([]string(nil), defaultProps...), IsIface: kw == "interface"}
 			if _, dup := ss.Contracts[key]; dup {
 				return fail(fmt.Errorf("duplicate contract for %s", key))
@@ -227,44 +235,12 @@ func (ss *SpecSet) parseSpec(text, path, pkgPath string) error {
 			}
 			c := &Clause{Text: body, Expr: e, Line: ln + 1, Note: note}
 			switch f[1] {
-			case "ghost":
-			// ghost name(a T, b U) R   -- uninterpreted; its meaning is given by axioms
-			fn, err := parseSpecFn(rest + " = 0")
-			if err != nil {
-				return fail(err)
-			}
-			fn.Pkg = pkgPath
-			ss.Ghosts[fn.Name] = fn
-			cur = nil
-		case "index-function":
-			cur.IndexFn = true
-		case "hide":
-			if cur == nil {
-				return fail(fmt.Errorf("hide outside func"))
-			}
-			if cur.Hide == nil {
-				cur.Hide = map[string]bool{}
-			}
-			for _, h := range strings.Fields(rest) {
-				cur.Hide[h] = true
-			}
-		case "using":
-			if cur == nil {
-				return fail(fmt.Errorf("using outside func"))
-			}
-			cur.Using = append(cur.Using, strings.Fields(rest)...)
-		case "alias":
-			// alias name = FuncKey
-			f := strings.SplitN(rest, "=", 2)
-			if len(f) != 2 {
-				return fail(fmt.Errorf("alias needs name = function"))
-			}
-			ss.Aliases[strings.TrimSpace(f[0])] = pkgPath + "." + strings.TrimSpace(f[1])
-			cur = nil
-		case "invariant":
+			case "invariant":
 				cur.LoopInv[n] = append(cur.LoopInv[n], c)
 			case "decreases":
 				cur.LoopDec[n] = c
+			case "step":
+				cur.LoopStep[n] = append(cur.LoopStep[n], c)
 			default:
 				return fail(fmt.Errorf("bad loop clause kind %s", f[1]))
 			}
@@ -317,6 +293,16 @@ func (ss *SpecSet) parseSpec(text, path, pkgPath string) error {
 			fn.Pkg = pkgPath
 			ss.Ghosts[fn.Name] = fn
 			cur = nil
+		case "at-call":
+			i := strings.Index(rest, " requires ")
+			if cur == nil || i < 0 {
+				return fail(fmt.Errorf("at-call <text> requires <expr>"))
+			}
+			e, err := parseExpr(strings.TrimSpace(rest[i+10:]))
+			if err != nil {
+				return fail(err)
+			}
+			cur.AtCall = append(cur.AtCall, &AtCall{Match: strings.TrimSpace(rest[:i]), Clause: &Clause{Text: strings.TrimSpace(rest[i+10:]), Expr: e, Line: ln + 1, Note: note}})
 		case "index-function":
 			cur.IndexFn = true
 		case "hide":
